@@ -639,17 +639,130 @@ func c05Gen(t *rapid.T) c05Case {
 
 var c05Sub *subCheck[c05Case]
 
+// ---- no LAST chunk: the reader never reports end-of-file ----
+
+type c05NoLastCase struct {
+	Chunks []Octets `json:"chunks"` // payloads of the non-LAST chunks sent (at least one)
+	Mode   int      `json:"mode"`   // 0 SMTP, 1 LMTP plain, 2 LMTP per-recipient
+	// End: what the client does instead of sending a LAST chunk: "eof" (clean
+	// half-close), "eof-with-data" (the half-close reported together with the
+	// last octets), "abort", "eof-in-command" (half-close in the middle of
+	// the next BDAT line), "quit", "rset", "greet", "mail"
+	End       string `json:"end"`
+	GateStart bool   `json:"gate_start,omitempty"`
+	TLS       bool   `json:"tls,omitempty"`
+}
+
+func c05NoLastRun(c c05NoLastCase) Verdict {
+	lmtp := c.Mode != 0
+	cfg := harness.Config{LMTP: lmtp, EOFWithData: c.End == "eof-with-data"}
+	if c.TLS {
+		cfg.TLS = "implicit"
+	}
+	script := harness.Script{LMTPSession: c.Mode == 2, GateStart: c.GateStart,
+		DefaultData: &harness.DataPlan{Read: harness.ReadPlan{Limit: -1, Retry: 2}, Honest: true}}
+	r := harness.NewRig(cfg, script)
+	w, derr := r.Dial()
+	if derr != nil {
+		w.Finish()
+		return Verdict{Inconclusive: "dial: " + derr.Error()}
+	}
+	if e := preamble(w, lmtp, true, 1); e != "" {
+		w.Finish()
+		return Verdict{Inconclusive: e}
+	}
+	var cv conv
+	var want []byte
+	for _, ch := range c.Chunks {
+		cv.cmd(fmt.Sprintf("BDAT %d", len(ch)))
+		cv.raw(ch)
+		want = append(want, ch...)
+	}
+	release := func() {
+		for i := 0; c.GateStart && i < 64; i++ {
+			if st := w.WaitQuiet(); st != harness.QGate {
+				break
+			}
+			r.B.ReleaseArrived()
+		}
+	}
+	switch c.End {
+	case "eof", "eof-with-data":
+		w.SendFinal(cv.buf)
+	case "eof-in-command":
+		cv.raw([]byte("BDAT 3 LA"))
+		w.SendFinal(cv.buf)
+	case "abort":
+		w.Send(cv.buf)
+		release()
+		w.WaitQuiet()
+		w.Abort()
+	default:
+		cv.cmd(map[string]string{"quit": "QUIT", "rset": "RSET", "greet": greetWord(lmtp) + " again", "mail": "MAIL FROM:<next@x>"}[c.End])
+		w.Send(cv.buf)
+	}
+	release()
+	_, fin := w.Finish()
+	if !fin {
+		return finishFail(w)
+	}
+	v := Verdict{NonTrivial: true, Classes: []string{"nolast_" + c.End}}
+	if p := r.Log.Panicked(); p != "" {
+		return failf("panic", "server logged a panic: %s", p)
+	}
+	des := dataEvents(r.B.Events())
+	if len(des) > 1 {
+		return failf("data-calls", "more than one Data call for one unfinished transfer: %s", traceString(r.B.Events()))
+	}
+	if len(des) == 0 {
+		// the delivery had not started when the transfer was given up: nothing was handed over
+		v.Classes = append(v.Classes, "nolast_never_delivered")
+		return v
+	}
+	d := des[0].Data
+	if d.EOF {
+		return failf("eof-without-last", "no LAST chunk was ever sent (the client ended with %q after %d chunk(s)), yet the reader reported end-of-file after %s", c.End, len(c.Chunks), q(d.Bytes))
+	}
+	if !bytes.HasPrefix(want, d.Bytes) {
+		return failf("payload", "the reader yielded %s, which is not a prefix of the chunk payloads %s", q(d.Bytes), q(want))
+	}
+	if c.End != "abort" && !bytes.Equal(want, d.Bytes) && !c.GateStart {
+		// every chunk was acknowledged or at least complete on the wire
+		// before the transfer was given up; what arrived is a prefix either
+		// way, and how much of it a failing reader still hands out is the
+		// server's business
+		v.Classes = append(v.Classes, "nolast_short_prefix")
+	}
+	return v
+}
+
+var c05NoLast *subCheck[c05NoLastCase]
+
 func init() {
-	registrars = append(registrars, func() { c05Sub = newSub("C05", "rapid", c05Run) })
+	registrars = append(registrars, func() {
+		c05Sub = newSub("C05", "rapid", c05Run)
+		c05NoLast = newSub("C05", "nolast", c05NoLastRun)
+	})
 }
 
 func TestC05(t *testing.T) {
 	registerAll()
-	st.Rule = "cases = (chunk list with payloads over all 256 octets / bait commands / LF-free runs around the line limit, LAST placement, VRFY markers after chunks, session state valid|nomail|norcpt|badlast|overlimit, optional earlier chunked transaction (completed or RSET) and a size limit the messages fit, line limit, SMTP/LMTP mode, segmentation of the BDAT part, backend read sizes); non-trivial = >=2 chunks OR a refused BDAT with payload OR an LF-free run longer than the line limit OR a BDAT line sharing its segment with the octets that follow; distinct = hash of the whole case"
+	st.Rule = "cases = (chunk list with payloads over all 256 octets / bait commands / LF-free runs around the line limit, LAST placement, VRFY markers after chunks, session state valid|nomail|norcpt|badlast|overlimit, optional earlier chunked transaction (completed or RSET) and a size limit the messages fit, line limit, SMTP/LMTP mode, segmentation of the BDAT part, backend read sizes); plus transfers that never get a LAST chunk (the client hangs up at or inside a command boundary, resets, quits, greets again or starts a new MAIL): the reader never reports end-of-file; non-trivial = >=2 chunks OR a refused BDAT with payload OR an LF-free run longer than the line limit OR a BDAT line sharing its segment with the octets that follow; distinct = hash of the whole case"
 	if !regress(t, "C05") {
 		return
 	}
 	c05Sub.rapidCheck(t, pickTier(6000, 40000), c05Gen)
+	if t.Failed() {
+		return
+	}
+	c05NoLast.rapidCheck(t, pickTier(800, 8000), func(rt *rapid.T) c05NoLastCase {
+		c := c05NoLastCase{Mode: rapid.IntRange(0, 2).Draw(rt, "mode"), GateStart: rapid.IntRange(0, 3).Draw(rt, "gate_start") == 0, TLS: rapid.IntRange(0, 5).Draw(rt, "tls") == 0,
+			End: rapid.SampledFrom([]string{"eof", "eof-with-data", "abort", "eof-in-command", "quit", "rset", "greet", "mail"}).Draw(rt, "end")}
+		for i, n := 0, rapid.IntRange(1, 3).Draw(rt, "nchunks"); i < n; i++ {
+			c.Chunks = append(c.Chunks, Octets(genBody(rt, 4, "chunk")))
+		}
+		return c
+	})
 }
 
 func FuzzC05(f *testing.F) {
